@@ -194,6 +194,19 @@ def showOp (n : Nat) (op : Op) (st : List Req) (o : Obs) : String :=
 def runOps (t : Tree) (n : Nat) : List String → List Req → List String → Option (List String)
   | [], _, acc => some acc.reverse
   | tok :: rest, st, acc =>
+    -- "N,s,valid,attrs": the next request has been parsed into the request_st; nothing is
+    -- reset yet (http_response_config(), op h, does that) — not an operation of the theorems,
+    -- which take "new attributes + full reset" as one step (`Op.newReq`)
+    if tok.startsWith "N," then
+      match opOf n st.length ("n," ++ (tok.drop 2).toString) with
+      | some (.newReq s sets v) =>
+        match st[s]? with
+        | some rq =>
+          let st' := st.set s { rq with env := applySets rq.env sets, valid := validOf v }
+          runOps t n rest st' (("N=" ++ dumpCache n rq.cache) :: acc)
+        | none => none
+      | _ => none
+    else
     -- "h,s": http_response_config() = full reset, then the core patch_config
     if tok.startsWith "h," then
       match (tok.drop 2).toNat? with
